@@ -20,6 +20,10 @@ CLAIMED = {
    text="Seeded search over two real nodes with different cache knobs (default caches vs per-channel cache length from 1, channel-count limits that force the bypass cache, query page sizes from 1) on one bucket, writers on both nodes (create/update/delete/channel moves/conflicting branches), readers racing with them for four requesters (admin, all-channels wildcard, one channel, channel via role) with every handed-out position reused as since, channel subsets, limit and active_only, plus one continuous feed that is never re-issued; feed reordering/dedup/redelivery and CAS-retry faults. Oracle: for every response ordering, no duplicate, limit, active_only, no leak and soundness against a reference model of channel membership built from what reached storage; at quiescence the same requests on node 1, the tiny-cache node 2 and a node started fresh (pure query back-fill) must return identical rows, contain the current revision of every visible changed document, pages of 1 and 2 concatenated must equal the unpaged answer, resuming from each handed-out position must give exactly the remaining rows, and the continuous feed must have delivered every visible document's current state.",
    note="Access is static per run (admin grants only; dynamic grants are C03/C13). Removal-notice completeness is checked through cache independence (three nodes agree) rather than against the model. Runs in which the recorded resurrection defect made storage regress are reported under that finding and not judged.",
    technique="deterministic simulation of a 2-3 node cluster on one bucket; differential (cache vs query back-fill) + reference-model oracle", design="4/C01"),
+ "C03": dict(level="exploration",
+   text="Seeded search over two real nodes on one bucket: phases of concurrent admin principal edits (explicit channels and roles, delete, recreate), role create/delete, and writes/updates/deletes/conflicting revisions of documents whose sync function calls access() and role() for arbitrary users and roles (including principals that do not exist yet), interleaved at every storage operation of the invalidate / recompute / save protocol, with forced CAS mismatches and feed redelivery, optional node restart. After every phase (quiescent point) the oracle recomputes, from the current winning bodies of the live documents and the admin grants stored on the principals, the literal union the property states, and compares it in both directions with what each node's authenticator returns on the user's next load: role channels, user inherited channels, user roles (existing roles only).",
+   note="The admin part of the reference is read back from the stored principals (explicit channels/roles); the sync function is a fixed forwarding function so that its grants can be recomputed independently from document bodies.",
+   technique="deterministic simulation of two nodes with storage-level interleaving; reference recomputation oracle at quiescent points", design="4/C03"),
 }
 
 NA = {
